@@ -25,13 +25,14 @@ RULE = ("cases = (class, kernel function, hyper-parameters incl. boundary values
 GEN_THEOREMS = ["fuzzy_choice", "fuzzy_match", "fuzzy_update", "fuzzy_new", "art1_choice", "art1_match", "art1_update",
                 "art1_new", "art2_choice", "art2_match", "art2_update", "art2_new", "sph_distance", "sph_choice",
                 "sph_match", "sph_update", "sph_new", "ell_distance", "ell_choice", "ell_match", "ell_update", "ell_new",
+                "gauss_lik", "gauss_choice", "gauss_match", "gauss_update", "gauss_new",
                 "bayes_match_bin", "base_match_bin", "operator_strict"]
 
 
 def prepare(ctx):
     """Translator tie (see gen_tie.py): the kernels of FuzzyART / ART1 / ART2A / HypersphereART"""
     from .gen_tie import gen_prepare
-    gen_prepare(ctx, GEN_THEOREMS, "category_choice / match_criterion / update / new_weight of FuzzyART, ART1, ART2A, HypersphereART, EllipsoidART; "
+    gen_prepare(ctx, GEN_THEOREMS, "category_choice / match_criterion / update / new_weight of FuzzyART, ART1, ART2A, HypersphereART, EllipsoidART, GaussianART; "
                 "match_criterion_bin of BaseART / BayesianART and the comparison operator per mode")
 
 
